@@ -374,51 +374,68 @@ Qed.
 (* ---------- the whole function ---------- *)
 
 (* the specs of a header: what parse_range extracts from the text *)
-Definition header_specs (header : list N) : option (list spec) :=
+Definition header_specs (header : list N) (size : Z) : option (list spec) :=
   match split_eq header with
   | None => None
   | Some (unit, rest) =>
       if negb (list_N_eqb unit (lit "bytes")) then None
-      else if existsb pair_too_long (header_pairs rest) then None
-      else Some (map spec_of_pair (header_pairs rest))
+      else Some (map (spec_of_pair size) (header_pairs rest))
   end.
 
 Lemma parse_range_ranges header size l :
   parse_range header size = Ranges l ->
-  exists specs, header_specs header = Some specs /\ resolve size specs = Ranges l.
+  exists specs, header_specs header size = Some specs /\ resolve size specs = Ranges l.
 Proof.
   unfold parse_range, header_specs.
   destruct (split_eq header) as [[unit rest]|]; [|discriminate].
   destruct (negb (list_N_eqb unit (lit "bytes"))); [discriminate|].
-  destruct (existsb pair_too_long (header_pairs rest)); [discriminate|].
   intros H. eexists. split; [reflexivity|exact H].
 Qed.
 
 Lemma digits_val_nonneg s : 0 <= digits_val s.
 Proof. unfold digits_val. apply N2Z.is_nonneg. Qed.
 
-Lemma spec_of_pair_wf p : wf_spec (spec_of_pair p).
+Lemma number_nonneg size s : 0 <= size -> 0 <= number size s.
+Proof. intros H. unfold number. destruct (too_long (strip_zeros s)); [lia|apply digits_val_nonneg]. Qed.
+
+(* stripping leading zeros does not change the value of a digit string *)
+Lemma digits_val_strip_zeros s : digits_val (strip_zeros s) = digits_val s.
 Proof.
-  destruct p as [[|a0 a] [|b0 b]]; cbn [spec_of_pair wf_spec]; repeat split; apply digits_val_nonneg.
+  induction s as [|c r IH]; [reflexivity|].
+  cbn [strip_zeros].
+  destruct (N.eq_dec c 48) as [->|Hne].
+  - rewrite IH. unfold digits_val. cbn [fold_left]. reflexivity.
+  - destruct c as [|p]; [reflexivity|].
+    do 6 (destruct p as [p|p|]; try reflexivity). all: try (exfalso; apply Hne; reflexivity).
 Qed.
 
-Lemma header_specs_wf header specs : header_specs header = Some specs -> Forall wf_spec specs.
+Lemma number_denotes_proof size s : too_long (strip_zeros s) = false -> number size s = digits_val s.
+Proof. intros H. unfold number. rewrite H. apply digits_val_strip_zeros. Qed.
+
+Lemma number_beyond_proof size s : too_long (strip_zeros s) = true -> number size s = size + 1.
+Proof. intros H. unfold number. rewrite H. reflexivity. Qed.
+
+
+Lemma spec_of_pair_wf size p : 0 <= size -> wf_spec (spec_of_pair size p).
 Proof.
-  unfold header_specs.
+  intros H. destruct p as [[|a0 a] [|b0 b]]; cbn [spec_of_pair wf_spec]; repeat split; apply number_nonneg; exact H.
+Qed.
+
+Lemma header_specs_wf header size specs : 0 <= size -> header_specs header size = Some specs -> Forall wf_spec specs.
+Proof.
+  intros Hsize. unfold header_specs.
   destruct (split_eq header) as [[unit rest]|]; [|discriminate].
   destruct (negb (list_N_eqb unit (lit "bytes"))); [discriminate|].
-  destruct (existsb pair_too_long (header_pairs rest)); [discriminate|].
   intros H; injection H as <-. apply Forall_forall. intros s Hs.
-  apply in_map_iff in Hs as (p & <- & _). apply spec_of_pair_wf.
+  apply in_map_iff in Hs as (p & <- & _). apply spec_of_pair_wf. exact Hsize.
 Qed.
 
 Lemma parse_range_of_specs header size specs :
-  header_specs header = Some specs -> parse_range header size = resolve size specs.
+  header_specs header size = Some specs -> parse_range header size = resolve size specs.
 Proof.
   unfold parse_range, header_specs.
   destruct (split_eq header) as [[unit rest]|]; [|discriminate].
   destruct (negb (list_N_eqb unit (lit "bytes"))); [discriminate|].
-  destruct (existsb pair_too_long (header_pairs rest)); [discriminate|].
   intros H; injection H as <-. reflexivity.
 Qed.
 
@@ -431,7 +448,7 @@ Qed.
 
 Theorem range_denotation_proof header size l :
   parse_range header size = Ranges l ->
-  exists specs, header_specs header = Some specs /\
+  exists specs, header_specs header size = Some specs /\
     forall p, covers l p <-> exists s, In s specs /\ denotes size s p.
 Proof.
   intros H. apply parse_range_ranges in H as (specs & Hs & H).
@@ -439,14 +456,15 @@ Proof.
 Qed.
 
 Theorem range_classification_proof header size specs :
-  header_specs header = Some specs ->
+  0 <= size ->
+  header_specs header size = Some specs ->
   (parse_range header size = Unsatisfiable <-> Exists (unsat size) specs) /\
   (parse_range header size = Malformed <->
      specs = [] \/ (~ Exists (unsat size) specs /\ Exists inverted specs)) /\
   ((exists l, parse_range header size = Ranges l) <->
      specs <> [] /\ ~ Exists (unsat size) specs /\ ~ Exists inverted specs).
 Proof.
-  intros Hs. pose proof (header_specs_wf _ _ Hs) as Hw.
+  intros Hsize Hs. pose proof (header_specs_wf _ _ _ Hsize Hs) as Hw.
   rewrite (parse_range_of_specs _ size _ Hs).
   pose proof (resolve_unsatisfiable size specs Hw) as HU.
   pose proof (resolve_malformed size specs Hw) as HM.
